@@ -6,7 +6,10 @@
                             error only clears the accumulator)
      sql/rowexec/insert.go  insertIter.updateLastInsertId (countdown of firstGeneratedAutoIncRowIdx over INSERTED rows)
      sql/rowexec/dml_iters.go  insertRowHandler (OkResult.InsertID = id of the first inserted row)
-   Values stay far below the BIGINT maximum (saturation is not modelled). *)
+   memory/table.go updateAutoIncrementSafe: the counter is advanced only while the next value fits the column type
+   ([tmax], at most MaxUint64): it pins at the type maximum and never wraps.
+   The table also has a UNIQUE column u; a row whose u value is already stored is a duplicate as well ([udup], decided by
+   the driver from the stored rows: within one statement the u values are pairwise different). *)
 From Coq Require Import List ZArith Bool.
 Import ListNotations.
 Open Scope Z_scope.
@@ -24,18 +27,22 @@ Record st := {
 Definition init : st := {| ctr := 1; ids := []; lid := 0; cnt := -1; first := None; seen := []; gens := [] |}.
 
 Inductive event :=
-| EInsert (ignore : bool) (specs : list (option Z))   (* None: NULL / 0 / DEFAULT / column omitted; Some k: explicit k <> 0 *)
+| EInsert (ignore : bool) (specs : list (option Z * bool))
+    (* id: None = NULL / 0 / DEFAULT / column omitted, Some k = explicit k <> 0;  flag: the row's u value is already stored *)
 | EDelGe (k : Z)                                     (* DELETE FROM t WHERE id >= k *)
 | EDelEq (k : Z)                                     (* DELETE FROM t WHERE id = k *)
 | EAlter (n : Z).                                    (* ALTER TABLE t AUTO_INCREMENT = n *)
 
 (* analyzer/inserts.go: index of the first tuple whose id is NULL / 0 / DEFAULT, else -1 *)
-Fixpoint first_gen_index (specs : list (option Z)) : Z :=
+Fixpoint first_gen_index (specs : list (option Z * bool)) : Z :=
   match specs with
   | [] => -1
-  | None :: _ => 0
-  | Some _ :: r => let i := first_gen_index r in if i <? 0 then -1 else i + 1
+  | (None, _) :: _ => 0
+  | (Some _, _) :: r => let i := first_gen_index r in if i <? 0 then -1 else i + 1
   end.
+
+(* updateAutoIncrementSafe *)
+Definition bump (tmax c : Z) : Z := if c <? tmax then c + 1 else c.
 
 (* AutoIncrement.Eval + GetNextAutoIncrementValue: the id of the row and the counter afterwards *)
 Definition eval_id (c : Z) (sp : option Z) : Z * Z :=
@@ -45,16 +52,17 @@ Definition eval_id (c : Z) (sp : option Z) : Z * Z :=
   end.
 
 (* one row through insertIter.Next / tableEditor.Insert; None = duplicate key in a plain INSERT *)
-Definition row_step (ign : bool) (s : st) (sp : option Z) : option st :=
+Definition row_step (tmax : Z) (ign : bool) (s : st) (spu : option Z * bool) : option st :=
+  let '(sp, udup) := spu in
   let '(id, c') := eval_id (ctr s) sp in
-  if existsb (Z.eqb id) (ids s) then
+  if udup || existsb (Z.eqb id) (ids s) then
     (* INSERT IGNORE: the row is skipped.  GetNextAutoIncrementValue raised the counter of the SESSION's table data, but
        the statement ends with ApplyEdits from the accumulator's own TableData, whose counter only tableEditor.Insert
        advances: the raise is lost *)
     (if ign then Some {| ctr := ctr s; ids := ids s; lid := lid s; cnt := cnt s; first := first s; seen := seen s; gens := gens s |}
      else None)
   else
-    Some {| ctr := if id =? c' then c' + 1 else c';
+    Some {| ctr := if id =? c' then bump tmax c' else c';
             ids := ids s ++ [id];
             lid := if cnt s =? 0 then id else lid s;
             cnt := if cnt s <? 0 then cnt s else cnt s - 1;
@@ -62,16 +70,16 @@ Definition row_step (ign : bool) (s : st) (sp : option Z) : option st :=
             seen := seen s ++ [id];
             gens := match sp with None => gens s ++ [id] | Some _ => gens s end |}.
 
-Fixpoint rows_run (ign : bool) (s : st) (specs : list (option Z)) : st * bool :=
+Fixpoint rows_run (tmax : Z) (ign : bool) (s : st) (specs : list (option Z * bool)) : st * bool :=
   match specs with
   | [] => (s, true)
-  | sp :: r => match row_step ign s sp with
-               | Some s' => rows_run ign s' r
+  | sp :: r => match row_step tmax ign s sp with
+               | Some s' => rows_run tmax ign s' r
                | None => (s, false)
                end
   end.
 
-Definition begin_insert (s : st) (specs : list (option Z)) : st :=
+Definition begin_insert (s : st) (specs : list (option Z * bool)) : st :=
   {| ctr := ctr s; ids := ids s; lid := lid s; cnt := first_gen_index specs; first := None; seen := seen s; gens := gens s |}.
 
 Definition with_lid (s : st) (l : Z) : st :=
@@ -87,10 +95,10 @@ Definition with_ctr (s : st) (c : Z) : st :=
 Definition wrap64 (z : Z) : Z := if z <? 0 then z + 18446744073709551616 else z.
 
 (* result: succeeded?, OkResult.InsertID *)
-Definition step (s : st) (e : event) : st * (bool * Z) :=
+Definition step (tmax : Z) (s : st) (e : event) : st * (bool * Z) :=
   match e with
   | EInsert ign specs =>
-      let '(s1, ok) := rows_run ign (begin_insert s specs) specs in
+      let '(s1, ok) := rows_run tmax ign (begin_insert s specs) specs in
       if ok then (s1, (true, match first s1 with Some id => wrap64 id | None => 0 end))
       else (with_lid s (lid s1), (false, 0))        (* the table data is restored, the session variable is not *)
   | EDelGe k => (with_ids s (filter (fun x => x <? k) (ids s)), (true, 0))
@@ -98,14 +106,23 @@ Definition step (s : st) (e : event) : st * (bool * Z) :=
   | EAlter n => (with_ctr s n, (true, 0))
   end.
 
-Definition run (s : st) (h : list event) : st := fold_left (fun s e => fst (step s e)) h s.
+Definition run (tmax : Z) (s : st) (h : list event) : st := fold_left (fun s e => fst (step tmax s e)) h s.
 
-(* the guard of the theorems: ALTER TABLE ... AUTO_INCREMENT never lowers the counter *)
+(* the guard of the theorems: ALTER TABLE ... AUTO_INCREMENT never lowers the counter, and the counter stays below the
+   type maximum (the behaviour AT the maximum is the subject of the saturation theorems) *)
 Definition ev_ok (s : st) (e : event) : bool :=
   match e with EAlter n => ctr s <=? n | _ => true end.
 
-Fixpoint guarded (s : st) (h : list event) : bool :=
+Fixpoint guarded (tmax : Z) (s : st) (h : list event) : bool :=
   match h with
   | [] => true
-  | e :: h' => ev_ok s e && guarded (fst (step s e)) h'
+  | e :: h' => ev_ok s e && (ctr (fst (step tmax s e)) <? tmax) && guarded tmax (fst (step tmax s e)) h'
+  end.
+
+(* ids and ALTER values fit the column type *)
+Definition ev_fits (tmax : Z) (e : event) : bool :=
+  match e with
+  | EInsert _ specs => forallb (fun sp => match fst sp with Some k => k <=? tmax | None => true end) specs
+  | EAlter n => n <=? tmax
+  | _ => true
   end.
